@@ -65,7 +65,15 @@ fn serde_expect(rule: &str, id: &str, variant: bool) -> Result<String, ()> {
 }
 
 fn source_for(rule: &str, ids: &[String], variant: bool) -> String {
-    let mut s = format!("#[typeshare]\n#[serde(rename_all = \"{rule}\")]\n");
+    // the rule is written the way rustfmt and people write serde lists: alone, with a trailing comma, over several lines,
+    // merged with or beside other arguments
+    let mut s = match (ids.len() + rule.len() + variant as usize) % 6 {
+        1 => format!("#[typeshare]\n#[serde(rename_all = \"{rule}\",)]\n"),
+        2 => format!("#[typeshare]\n#[serde(\n    rename_all = \"{rule}\",\n)]\n"),
+        3 => format!("#[typeshare]\n#[serde(deny_unknown_fields, rename_all = \"{rule}\")]\n"),
+        4 => format!("#[serde(deny_unknown_fields)]\n#[typeshare]\n#[serde(rename_all = \"{rule}\")]\n"),
+        _ => format!("#[typeshare]\n#[serde(rename_all = \"{rule}\")]\n"),
+    };
     if variant {
         s.push_str("pub enum Subject {\n");
         for id in ids {
